@@ -27,11 +27,14 @@ fn groups_for(prop: &str, ctx: &Ctx) -> Vec<Box<dyn Group>> {
         "C13" => vec![Box::new(c13::Decisions)],
         "C17" => vec![Box::new(c17::Hist::new(ctx))],
         "C08" => vec![Box::new(c08::Framing)],
+        "C20" => vec![Box::new(c20::Pair::new()), Box::new(c20::MuxStreams::new())],
         _ => vec![],
     }
 }
 
 fn main() {
+    // kvarn_testing initialises env_logger: keep it quiet
+    std::env::set_var("RUST_LOG", "off");
     let args: Vec<String> = std::env::args().collect();
     let prop = args.get(1).cloned().unwrap_or_default();
     let mut mode = Mode::Quick;
